@@ -199,6 +199,11 @@ type Fault struct {
 	Arg       string `json:"arg,omitempty"`
 }
 
+type CloseAt struct {
+	K    int  `json:"k"`
+	Half bool `json:"half,omitempty"` // wait half of the fake-time gap to the next model event first
+}
+
 type Expect struct {
 	Rule      string `json:"rule"`
 	TraceHash string `json:"traceHash"`
@@ -217,6 +222,7 @@ type Case struct {
 	Workload []Op    `json:"workload"`
 	Faults   []Fault `json:"faults"`
 	MaxSimMs int64   `json:"maxSimMs,omitempty"` // fake-time cap (liveness bound)
+	CloseAt  *CloseAt `json:"closeAt,omitempty"` // C12: shut everything down right after the K-th model event
 	Expect   *Expect `json:"expect,omitempty"`
 }
 
